@@ -55,7 +55,7 @@ fn gen_inputs(rng: &mut Rng) -> Inputs {
 
 fn build(inp: &Inputs) -> Option<Axecutor> {
     let p = &inp.prog;
-    let mut ax = catch(|| Axecutor::new(&p.code, proggen::CODE_AT, proggen::CODE_AT)).ok()?.ok()?;
+    let mut ax = catch(|| Axecutor::new(&p.full_code(), proggen::CODE_AT - p.entry_off, proggen::CODE_AT)).ok()?.ok()?;
     let data: Vec<u8> = (0..proggen::DATA_LEN).map(|i| (mix64(i) & 0xff) as u8).collect();
     catch(|| ax.mem_init_area(proggen::DATA_AT, data)).ok()?.ok()?;
     for (i, r) in proggen::GPR.iter().enumerate() {
